@@ -132,9 +132,11 @@ Print Assumptions C08_monotone_v0_refuted.
    The combined machine [Compose_chain.crun cl ops] interleaves the operations above with CancelTx calls
    (OCancel: the target is one of the transactions accepted so far, named by position; every other answer
    is free).  [Compose_chain.strip ops] is the history with the cancellations removed,
-   [Compose_chain.send_events t] the Send / Conf / Restart events of a combined trace.  Frame fact read off
-   evmclient.go and not covered by a correspondence run of its own: CancelTx holds the client mutex, never
-   assigns c.nonce and never touches the monitor's confirmed nonce.  Non-vacuity: Compose_chain.ex_chain. *)
+   [Compose_chain.send_events t] the Send / Conf / Restart events of a combined trace.  Frame fact: CancelTx
+   never assigns c.nonce and never stores the monitor's confirmed nonce -- regenerated from evmclient.go on
+   every run (gen/Generated.v: c10_cancel_writes_nonce, c10_cancel_touches_confirmed; C10_cancel_frame); the
+   CancelTx step of the combined machine leaves the sender's state alone only when
+   [Compose_chain.cancel_frame_ok], computed from those, holds.  Non-vacuity: Compose_chain.ex_chain. *)
 From MevVerif Require model.Cancel proofs.Compose_chain.
 
 (* C08 o C10.  What the node sees of the Send calls of a history with cancellations is exactly what it sees
@@ -165,3 +167,14 @@ Theorem C08_no_skip_across_cancels : forall cl ops pre p1 n1 mid p2 n2 post,
   n2 = N.max (n1 + 1) (max_list (pendings (Compose_chain.send_events mid ++ [TSend p2 (Accepted n2)]))).
 Proof. exact Compose_chain.no_skip_across_cancels. Qed.
 Print Assumptions C08_no_skip_across_cancels.
+
+(* The frame fact is needed: in the machine whose CancelTx step may write the sender's state
+   ([Compose_chain.crun_gen false]) a cancellation that resets the counter makes the next Send reuse a
+   nonce; [Compose_chain.crun] is [crun_gen] at the flag computed from the source (C10_cancel_frame). *)
+Theorem C08_cancel_frame_needed :
+  exists cl ops,
+    wf_ops (Compose_chain.strip ops) /\
+    Compose_chain.send_events (Compose_chain.crun_gen false cl init [] ops) <> run init (Compose_chain.strip ops) /\
+    accepted (Compose_chain.send_events (Compose_chain.crun_gen false cl init [] ops)) = [5; 5].
+Proof. exact Compose_chain.frame_needed. Qed.
+Print Assumptions C08_cancel_frame_needed.
